@@ -67,7 +67,7 @@ def cases(tier):
         out.append(("NEG-ARG %s" % t, "fn g(x: %s)\n{\n}\nfn f()\n{\n\tg(-5%s);\n}\n" % (t, t), "OK" if sg else None))
     # arrays: the element types (lengths of nested arrays included) must be identical; only the outermost
     # length may be dropped by the array-to-slice coercion
-    ELEMS = ["i32", "u8", "[3]i32", "[4]i32", "[3]u8", "[2][3]i32", "[2][4]i32"]
+    ELEMS = ["i32", "u8", "[3]i32", "[4]i32", "[3]u8", "[2][3]i32", "[2][4]i32", "usize", "u64", "i64", "u32"]
     for e1 in ELEMS:
         for e2 in ELEMS:
             for n, m in ((2, 2), (2, 3)):
@@ -76,6 +76,17 @@ def cases(tier):
                 out.append(("ARR-INI %d %s %d %s" % (n, e1, m, e2), "fn f()\n{\n\tvar a: [%d]%s;\n\tvar b: [%d]%s = a;\n}\n" % (m, e2, n, e1), None))   # arrays are never copied (E531)
                 out.append(("ARR-ASG %d %s %d %s" % (n, e1, m, e2), "fn f()\n{\n\tvar a: [%d]%s;\n\tvar b: [%d]%s;\n\tb = a;\n}\n" % (m, e2, n, e1), None))
                 out.append(("ARR-PTR %d %s %d %s" % (n, e1, m, e2), "fn g(x: &[%d]%s)\n{\n}\nfn f()\n{\n\tvar a: [%d]%s;\n\tg(&a);\n}\n" % (n, e1, m, e2), "OK" if e1 == e2 and n == m else None))
+    # a constant initialised from another constant, or from an expression over one, has that type
+    for a, b in pairs:
+        if a in ("bool", "char8") or b in ("bool", "char8"): continue
+        ok = "OK" if a == b else None
+        out.append(("CONST-REF %s %s" % (a, b), "const A: %s = 5;\nconst B: %s = A;\nfn f()\n{\n}\n" % (a, b), ok))
+        out.append(("CONST-EXPR %s %s" % (a, b), "const A: %s = 5;\nconst B: %s = A + 1;\nfn f()\n{\n}\n" % (a, b), ok))
+    # calls: every combination of 0-2 parameters and 0-3 arguments
+    for np_ in range(0, 3):
+        for na in range(0, 4):
+            out.append(("ARITY %d %d" % (np_, na), "fn g(%s)\n{\n}\nfn f(v: i32)\n{\n\tg(%s);\n}\n" % (", ".join("p%d: i32" % j for j in range(np_)), ", ".join(["v"] * na)), "OK" if np_ == na else None))
+            out.append(("ARITY-LIT %d %d" % (np_, na), "fn g(%s) -> i32\n{\n\treturn: 1\n}\nfn f() -> i32\n{\n\treturn: g(%s)\n}\n" % (", ".join("p%d: i32" % j for j in range(np_)), ", ".join(["7"] * na)), "OK" if np_ == na else None))
     # long chains of member accesses through pointers to pointers (each step needs two automatic dereferences:
     # the budget of the typer's autoderef loop was too small from 85 steps on - D61): the type of the whole
     # reference is the type of the last member
